@@ -4,4 +4,5 @@ MODULES = {
     "C06": "harness.c06_response",
     "C04": "harness.c04_address",
     "C05": "harness.c05_frame",
+    "C12": "harness.c12_events",
 }
